@@ -299,7 +299,7 @@ class StringModelOb(Obligation):
                 s.title()
                 return Verdict(False, {"operand": s, "result": "no Unsupported raised"})
             except Unsupported:
-                return Verdict(True, {"operand": s, "result": None}, nontrivial=False)
+                return Verdict(True, {"operand": s, "result": None})
         return Verdict(True, {"operand": s, "result": f(s)})
 
     def replay(self, conc, verdict_ok):
